@@ -399,6 +399,36 @@ def token_resolution(rep: Report, prog: Program, resolver: Resolver) -> None:
         raise AnalysisError("parsing.py: no Unit.resolve_symbol call found (R13.8 anchor moved)")
 
 
+def prefixed_named_units(rep: Report, ev: Evaluator, rid: str, why: str) -> None:
+    """R13.9 / R15.14: which shipped named units lose their text form when a registered prefix is attached.  The formatter
+    pushes the unit's prefix onto the first factor by Prefix.root(<that factor's exponent>) and falls back to a leading
+    magnitude when the root is not whole (R11.6 decides that this is what it does; R01.2 when a root is whole): so a named
+    unit whose first factor has an exponent of magnitude >= 2, or that carries a prefix of its own (a prefix of the other base
+    then gives a fractional exponent), has prefixed forms written as `1000 m^2.kg.s^-3`, which the grammar rejects.  That is
+    the recorded defect of section 5; this rule keys it by unit, so a unit that *joins* the set (a base unit redefined as a
+    derived one) is a new finding."""
+    seen: Set[int] = set()
+    n = 0
+    for nm, u in sorted(ev.unit_by_name.items()):
+        if id(u) in seen or not getattr(u, "symbols", None):
+            continue
+        seen.add(id(u))
+        fs = list(u.factors.items())
+        if not fs:
+            continue
+        n += 1
+        e1 = fs[0][1]
+        own = u.prefix.base != 0 and u.prefix.exponent != 0
+        first = ev.unit_by_id[fs[0][0]]
+        rep.check(rid, f"named-unit:{u.name or nm}", abs(e1) < 2 and not own,
+                  f"{u.name or nm!r} (symbol {u.symbols[0]!r}) " + (f"has {first.name!r}**{e1} as its first factor" if abs(e1) >= 2 else
+                                                                    f"carries the prefix {u.prefix.base}**{u.prefix.exponent} itself") +
+                  f": with a registered prefix whose exponent that does not divide (Kilo, Milli, ...) its text form is a leading magnitude followed by the "
+                  f"factors, which the `unit` grammar rejects - {why}", u.where)
+    if n < 100:
+        raise AnalysisError(f"only {n} named units with symbols evaluated (R13.9 anchor)")
+
+
 def term_prefix_guard(rep: Report, prog: Program) -> None:
     """R13.7: a prefix the formatter attaches to a rendered term is either a factor's own prefix or
     the result of Prefix.root(..) - the only operation that rejects a prefix whose exponent is not
@@ -510,6 +540,9 @@ def run(rep: Report) -> None:
     spellings(rep, prog, tables)
     term_prefix_guard(rep, prog)
     token_resolution(rep, prog, resolver)
+    rep.rule("R13.9", "a shipped named unit keeps a parseable text form under every registered prefix (its first factor has exponent +-1 and it carries "
+             "no prefix of its own) - the members of the recorded leading-magnitude defect, unit by unit", floor=100)
+    prefixed_named_units(rep, ev, "R13.9", "str(prefix * unit) does not parse back")
     from .c06 import immutability
     rep.rule("R06.6", "rendering cannot change what is rendered: no attribute of a Quantity / Level / Measurement is assigned outside its constructor "
              "(an in-place operator reached from str() would make parse(str(q)) differ from q) - shared with C06", floor=10)
